@@ -669,7 +669,7 @@ impl Cx<'_> {
             if deep { 4 } else { 12 },   // 2 vec
             w_user,                      // 3 user
             w_param,                     // 4 param
-            if deep { 0 } else { 5 },    // 5 map
+            if deep { 0 } else { 8 },    // 5 map
             if deep { 0 } else { 4 },    // 6 tuple
             if deep { 0 } else { 5 },    // 7 array
             if deep { 1 } else { 5 },    // 8 wrapper
